@@ -44,8 +44,8 @@ def run(ctx):
         for e in evs:
             e.top = fi
         events.extend(evs)
-    floor(ctx, 'functions analysed for mutation events', analysed, 100)
-    floor(ctx, 'mutation events', len(events), 200)
+    floor(ctx, 'functions analysed for mutation events', analysed, 60)
+    floor(ctx, 'mutation events', len(events), 100)
     ctx.count('mutation_events', len(events))
     ctx.count('closures_analysed', fr.stats['closures'])
     n_value = 0
@@ -76,7 +76,7 @@ def run(ctx):
         ctx.ob(rule, top, e.line, f"{e.desc} [{_where(e)}]", False, fact=f"{e.cls}: {e.why}",
                why=f"mutates an object that is not fresh in this activation ({e.why}): a caller's object changes",
                key=f"mutation of non-fresh object: {e.target_text}")
-    floor(ctx, 'mutation events on value/builder objects', n_value, 80)
+    floor(ctx, 'mutation events on value/builder objects', n_value, 40)
 
     # ---- the PlateSlicer.array setter reached from Slicer.__init__ must be an identity store
     ps = model.cls('PlateSlicer')
